@@ -57,13 +57,15 @@ def wFb : XFlow :=
 /-- `corpus/C05/regress-F05b.ops`: `fa ⇄ fb` -/
 def wCfgB : Cfg := { pdefs := [wPA], flows := [wFa, wFb] }
 
-/-- a diamond of references `fa → fc`, `fb → fc` (the same flow incorporated twice) -/
+/-- a diamond of references `fa → fc`, `fb → fc` on the response side (the same flow incorporated twice) -/
 def wCfgDiamond : Cfg :=
   { pdefs := [wPA]
-    flows := [{ wFa with req := [⟨wS, .proc "A" ""⟩, ⟨.proc "A" "a", .flow "fc" "start"⟩] },
-              { wFb with req := [⟨wS, .proc "B" ""⟩, ⟨.proc "B" "a", .flow "fc" "start"⟩] },
-              { name := "fc", procs := [⟨"C", "PA", []⟩]
-                req := [⟨wS, .proc "C" ""⟩, ⟨.proc "C" "a", wE⟩], res := [⟨wS, wE⟩] }] }
+    flows := [{ name := "fa", procs := [⟨"A", "PA", []⟩], req := [⟨wS, wE⟩]
+                res := [⟨wS, .proc "A" ""⟩, ⟨.proc "A" "a", .flow "fc" "start"⟩] },
+              { name := "fb", procs := [⟨"B", "PA", []⟩], req := [⟨wS, wE⟩]
+                res := [⟨wS, .proc "B" ""⟩, ⟨.proc "B" "a", .flow "fc" "start"⟩] },
+              { name := "fc", procs := [⟨"C", "PA", []⟩], req := [⟨wS, wE⟩]
+                res := [⟨wS, .proc "C" ""⟩, ⟨.proc "C" "a", wE⟩] }] }
 
 /-- `corpus/C05/regress-F05c.ops`: a null entry among the internal limits -/
 def wCfgC : Cfg :=
